@@ -41,7 +41,12 @@ def run(ctx):
         # a tuple-valued list next to a list-valued one
         fixed = [("MassFunction", {"transfer_model": "BBKS", "hmf_model": "SMT"}, {"transfer_params": [{"a": 2.0}, {"a": 2.34}], "hmf_params": [{"a": 2.34}, {"a": 2.0}]}, ["dndm"], "display", False),
                  ("MassFunction", {"transfer_model": "BBKS", "hmf_model": "SMT"}, {"transfer_params": [{"a": 2.0}, {"a": 2.34}], "hmf_params": [{"a": 2.34}, {"a": 2.0}]}, ["sigma"], "filename", False),
-                 ("MassFunction", {}, {"z": [0.0, 1.5], "hmf_model": ["PS", "SMT", "Warren"], "sigma_8": [0.8, 0.9]}, ["dndm"], "display", True)]
+                 ("MassFunction", {}, {"z": [0.0, 1.5], "hmf_model": ["PS", "SMT", "Warren"], "sigma_8": [0.8, 0.9]}, ["dndm"], "display", True),
+                 # a meaningful None among the values, reached after a non-None value of the same parameter
+                 ("MassFunction", {"hmf_model": "SMT"}, {"mdef_model": ["SOVirial", None, "SOMean"], "z": [0.0, 1.0]}, ["dndm"], "display", False),
+                 # values that agree to several significant digits still identify different combinations
+                 ("MassFunction", {}, {"delta_c": [1.686, 1.68647, 1.6864700001], "z": [0.0, 1.0]}, ["dndm"], "display", False),
+                 ("Transfer", {}, {"sigma_8": [0.8, 0.80004], "cosmo_params": [{"Om0": 0.3}, {"Om0": 0.30001}]}, ["power"], "filename", False)]
         for case in range(len(fixed) + (10 if quick else 150)):
             if case < len(fixed):
                 cn, extra, lists, qs, label_kind, tup_ = fixed[case]
